@@ -71,6 +71,8 @@ __CPROVER_requires(!SNP_HDR_OK(xp, xn) || SNP_VVAL(xp, xn) == 0 || __CPROVER_w_o
 __CPROVER_assigns(__CPROVER_object_from(zp))
 __CPROVER_ensures(__CPROVER_return_value == 0 || __CPROVER_return_value == 1)
 __CPROVER_ensures(SNP_HDR_OK(xp, xn) || __CPROVER_return_value == 0)
+/* the element stream is what follows the length header: a stream that ends with the header decodes iff the announced length is 0 */
+__CPROVER_ensures(!SNP_HDR_OK(xp, xn) || SNP_VLEN(xp, xn) != xn || __CPROVER_return_value == (SNP_VVAL(xp, xn) == 0 ? 1 : 0))
 ;
 
 void h_decode_size(void) {
